@@ -42,6 +42,17 @@ func (g *gen) schedule(cases []*caseT) []int {
 	return s
 }
 
+// scheduleLen: one entry per chunk of the cases (the length of any schedule for them)
+func (g *gen) scheduleLen(cases []*caseT) []int {
+	var s []int
+	for i, cs := range cases {
+		for range cs.chunks {
+			s = append(s, i)
+		}
+	}
+	return s
+}
+
 // sessions for one shared configuration: every connection uses the same
 // statement/portal names, a different user, and its own message sequence
 func (g *gen) multiCases(id int, cfg cfgT, n int, msgsPer int) []*caseT {
